@@ -77,6 +77,23 @@ bool splinetable<Alloc>::write_key(const char* key, const T& value){
 		throw std::runtime_error("Cannot set key with reserved name "+std::string(key));
 	size_t keylen = strlen(key) + 1;
 	size_t maxdatalen=68; //valid for short keys
+	//Keys which cfitsio would alter when writing or reading them back cannot 
+	//be preserved: "HIERARCH" itself and anything starting with "HIERARCH " 
+	//lose that prefix (it is the marker of the long keyword convention), 
+	//leading and trailing blanks are stripped, and characters outside the 
+	//printable ASCII range are replaced by blanks.
+	if(strcmp(key,"HIERARCH")==0 || strncmp(key,"HIERARCH ",9)==0)
+		throw std::runtime_error("FITS header keywords must not begin with the "
+								 "HIERARCH convention marker (key was '"+
+								 std::string(key)+"')");
+	if(key[0]==' ' || key[keylen-2]==' ')
+		throw std::runtime_error("FITS header keywords must not begin or end with "
+								 "blanks (key was '"+std::string(key)+"')");
+	for(size_t i=0; i<keylen-1; i++){
+		if(key[i]<0x20 || key[i]>0x7E)
+			throw std::runtime_error("FITS header keywords must consist of printable "
+									 "ASCII characters (key was '"+std::string(key)+"')");
+	}
 	if(keylen<=9){ //up to 8 bytes of data
 		for(size_t i=0; i<keylen-1; i++){
 			if(!(std::isupper(key[i]) || std::isdigit(key[i])) || key[i]=='-' || key[i]=='_')
@@ -113,11 +130,22 @@ bool splinetable<Alloc>::write_key(const char* key, const T& value){
 		return(false);
 	std::string valuedata=ss.str();
 	size_t valuelen = valuedata.size() + 1;
+	//the value is stored as a FITS string: only printable ASCII characters can be 
+	//represented, and every single quote takes two characters in the header card
+	size_t storedlen = valuedata.size();
+	for(char c : valuedata){
+		if(c<0x20 || c>0x7E)
+			throw std::runtime_error("Value cannot be stored as a FITS keyword since it "
+									 "contains characters outside the printable ASCII range ('"
+									 +valuedata+"')");
+		if(c=='\'')
+			storedlen++;
+	}
 	//For normal (short) keys, we get up to 68 bytes of storage, but for longer keywords
 	//the 'HIERARCH Keyword Convention' kicks in and limits us further
-	if(valuelen-1>maxdatalen){
+	if(storedlen>maxdatalen){
 		throw std::runtime_error("Value is too long to be stored as a FITS keyword ('"
-								 +valuedata+"' has length "+std::to_string(valuelen-1)
+								 +valuedata+"' has length "+std::to_string(storedlen)
 								 +", but a maximum of "+std::to_string(maxdatalen)+
 								 " characters will fit with this key since continued "
 								 "string keywords are not currently implemented.)");
